@@ -3,6 +3,7 @@ CONSTANTS
     BLens = {"gt"}
     Muts = {"none"}
     Offs = {"inside"}
+    Lens = {"ok"}
     Opts = {"none"}
     GuardLen = TRUE
 SPECIFICATION TraceSpec
